@@ -194,13 +194,16 @@ line with a negative frag count (`one::Player.score` is a `u16`) fails the whole
 theorem C05_finding_negative_frags (bits : Nat) (ds : Bytes) :
     fieldUnsigned bits (some (0x2D :: ds)) = .err .typeParse := by
   have : parseUnsigned bits (0x2D :: ds) = none := by
+    have hsp : stripPlus (0x2D :: ds) = 0x2D :: ds := by
+      unfold stripPlus
+      split
+      · rename_i r heq
+        injection heq with h1 _
+        exact absurd h1 (by decide)
+      · rfl
+    have hd : isDigit 0x2D = false := by decide
     unfold parseUnsigned
-    split
-    · rename_i r heq
-      injection heq with h1 _
-      exact absurd h1 (by decide)
-    · have hd : isDigit 0x2D = false := by decide
-      simp [hd]
+    simp [hsp, hd]
   simp [fieldUnsigned, this, okOr]
 
 /-- A line (the variables line or a player line) that is not valid UTF-8 is a `PacketBad` error: Quake text is
